@@ -83,6 +83,7 @@ class CachinKursawePetzoldShoupRBC
 		std::vector<RBC_TagCheck>            retrieve, deliver;
 		RBC_VectorMap                        retrieve_buf;
 		RBC_TagMpz                           mbar, dbar;
+		RBC_TagCheck                         acked;
 		std::map<std::string, RBC_TagCount>  e_d, r_d;
 		std::vector<RBC_BufferList>          buf_mpz, buf_id, buf_msg;
 		std::vector<bool>                    deliver_error;
